@@ -22,7 +22,7 @@ OUTPUT = "StreamGen.v"
 ITEMS = ["init_low_water", "init_high_water", "init_high_water_chunks", "init_low_water_chunks",
          "chunk_size_raises", "chunk_size_low", "chunk_size_high", "feed_pause", "empty_chunk",
          "chunk_pause", "take_partial", "split_stale", "resume_size", "resume_bytes", "resume_chunks",
-         "readchunk_at", "readchunk_ahead", "line_too_long", "readuntil max_size default", "read_all_chunk_size"]
+         "readchunk_at", "readchunk_ahead", "line_too_long", "readuntil max_size default", "wait_checks_exception", "read_all_chunk_size"]
 
 F = "aiohttp/streams.py"
 C = "StreamReader"
@@ -248,6 +248,22 @@ def generate() -> str:
     calls = [n for n in ast.walk(fn) if isinstance(n, ast.Call) and isinstance(n.func, ast.Attribute) and n.func.attr == "_read_nowait_chunk"]
     if len(calls) != 1 or ast.dump(calls[0].args[0]) != sep_arg:
         raise TranslatorError("readuntil: the byte count passed to _read_nowait_chunk changed")
+
+    # ---- _wait -------------------------------------------------------------------------------
+    # does `_wait` start by raising a pending exception (`if self._exception is not None: raise self._exception`)?
+    # Translated as found: the "no reader waits while an exception is set" theorem needs it.
+    fn = core.find_function(F, "_wait", cls=C)
+    body = [st_ for st_ in fn.body if not (isinstance(st_, ast.Expr) and isinstance(st_.value, ast.Constant))]
+    exc_check = ast.dump(ast.parse("if self._exception is not None:\n    raise self._exception").body[0])
+    conn_check = ast.dump(ast.parse("not self._protocol.connected", mode="eval").body)
+    checks = body[0:1] if body and ast.dump(body[0]) == exc_check else []
+    rest = body[len(checks):]
+    if not (rest and isinstance(rest[0], ast.If) and ast.dump(rest[0].test) == conn_check):
+        raise TranslatorError("_wait: expected (optional pending-exception test,) then the `not self._protocol.connected` test")
+    if any(ast.dump(x) == exc_check for x in rest):
+        raise TranslatorError("_wait: the pending-exception test is not the first statement")
+    out.append("(* _wait raises a pending self._exception before creating the waiter *)")
+    out.append(f"Definition wait_checks_exception : bool := {'true' if checks else 'false'}.")
 
     # ---- read(-1) ----------------------------------------------------------------------------
     fn = core.find_function(F, "read", cls=C)
